@@ -54,7 +54,7 @@ def execute(case):
     def go():
         return gcmpy.MPCC(G) if limit is None else gcmpy.MPCC(G, lim_arg)
     try:
-        with watchdog(60):
+        with watchdog(case.get("watchdog", 60)):
             if case["rng"][0] == "seed":
                 R = orc.run_seeded(case["rng"][1], go)
             else:
@@ -160,6 +160,19 @@ def run(chk):
             rng.shuffle(ids)
         traces.append(execute({"nodes": ids, "edges": [(ids[a], ids[b]) for a, b in es], "limit": rng.choice([-1, 0, 2, 3, 4, 5, 7]),
                                "rng": ("seed", rng.randrange(1 << 30)), "np_limit": i % 4 == 0}))
+    # large cliques that overlap in an edge, with small maximal cliques (triangles) sitting on their edges: the greedy-maximal
+    # clause is decided by which of the big cliques loses the tie and what the satellites then take away from its sub-cliques
+    for i in range(600 if thorough else 120):
+        k1, k2 = rng.choice([(5, 5), (5, 5), (5, 6), (6, 6), (5, 4)])
+        A = list(range(k1)); B = [k1 - 2, k1 - 1] + list(range(k1, k1 + k2 - 2))
+        es = {tuple(sorted(e)) for e in itertools.combinations(A, 2)} | {tuple(sorted(e)) for e in itertools.combinations(B, 2)}
+        nxt = k1 + k2 - 2
+        for _ in range(rng.randrange(1, 5)):                      # a triangle on a random edge of either clique
+            a, b = rng.sample(rng.choice([A, B]), 2)
+            es |= {tuple(sorted((a, nxt))), tuple(sorted((b, nxt)))}
+            nxt += 1
+        traces.append(execute({"nodes": list(range(nxt)), "edges": sorted(es), "limit": rng.choice([-1, 0, 3, 4, 5]),
+                               "rng": ("seed", rng.randrange(1 << 30))}))
     from . import stub
     for i in range(100 if thorough else 25):
         jds = stub.random_jds(rng, "f_mix4", rng.choice([8, 14, 20]), 2, zero_frac=0.2)
